@@ -31,15 +31,15 @@ Theorem C14_rows : forall t ix t', Rect t -> rsel_rows t ix = Ok t' ->
 Proof. exact rows_rect. Qed.
 Print Assumptions C14_rows.
 
-(* column selection (names of columns and expressions over them, no name
-   twice: reqs_okb): rectangular, same length, exactly the requested columns
+(* column selection (names of columns and expressions over them; a name
+   requested twice is listed once: dedup_reqs, as _ColView.__getitem__ does): rectangular, same length, exactly the requested columns
    (index first when not requested), scalars carried over, requested columns
    keep their cells *)
-Theorem C14_cols : forall t reqs t', Rect t -> reqs_okb t reqs = true -> rsel_cols t reqs = Ok t' ->
-  Rect t' /\ r_cols t' = reqs_names t reqs /\ r_index t' = r_index t /\ rlen t' = rlen t /\
+Theorem C14_cols : forall t reqs t', Rect t -> reqs_okb t (dedup_reqs reqs) = true -> rsel_cols t reqs = Ok t' ->
+  Rect t' /\ r_cols t' = reqs_names t (dedup_reqs reqs) /\ r_index t' = r_index t /\ rlen t' = rlen t /\
   (forall k, ~ In k (r_cols t) -> aget N.eqb k (r_data t) <> None -> aget N.eqb k (r_data t') = aget N.eqb k (r_data t)) /\
-  (forall c, In c (r_cols t) -> In c (reqs_names t reqs) -> aget N.eqb c (r_data t') = aget N.eqb c (r_data t)).
-Proof. exact cols_rect. Qed.
+  (forall c, In c (r_cols t) -> In c (reqs_names t (dedup_reqs reqs)) -> aget N.eqb c (r_data t') = aget N.eqb c (r_data t)).
+Proof. exact cols_rect_dedup. Qed.
 Print Assumptions C14_cols.
 
 (* t + u for tables with the same columns *)
